@@ -180,18 +180,18 @@ var nearRoles = []string{"main", "search", "region", "article", "presentation", 
 // generator ------------------------------------------------------------------
 
 type gen struct {
-	r     *rand.Rand
-	tk    *fw.Tokens
-	d     *Doc
-	opt   Options
+	r       *rand.Rand
+	tk      *fw.Tokens
+	d       *Doc
+	opt     Options
 	quirk   bool
 	upper   bool
 	noLinks bool
 	head    []*Unit
 }
 
-func (g *gen) feat(f string)          { g.d.Features[f] = true }
-func (g *gen) chance(p float64) bool  { return g.r.Float64() < p }
+func (g *gen) feat(f string)           { g.d.Features[f] = true }
+func (g *gen) chance(p float64) bool   { return g.r.Float64() < p }
 func (g *gen) pick(xs []string) string { return xs[g.r.Intn(len(xs))] }
 func (g *gen) between(lo, hi int) int {
 	if hi <= lo {
